@@ -1,4 +1,5 @@
 """C13 - poll_at is a sufficient and non-spinning wake-up schedule (structural clauses)."""
+import re
 from ..framework import rule
 from ..core import *
 from ..lib import *
@@ -46,6 +47,32 @@ def all_leafs(F, body):
     return out
 
 
+def _min_loop(F, p):
+    """the explicit form of a minimum: a loop driven by Iterator::next that is left only when the iterator is exhausted
+    (every item is visited) and that orders two instants somewhere inside (in the body or in a closure of it)"""
+    from ..loops import loops
+    for h, nodes, _ in loops(p):
+        nxt = [x for x in nodes if p.blocks[x]['t'][0] == 'call' and (p.callee_name(p.blocks[x]['t'][1]) or '').endswith('::next')]
+        if len(nxt) != 1:
+            continue
+        after = p.blocks[nxt[0]]['t'][4]
+        exits = {x for x in nodes for y in p.succ[x] if y not in nodes and not p.blocks[y]['cl']}
+        if not exits or not exits <= {after}:
+            continue
+        bodies = [p] + [cb for k, cb in F.bodies.items() if k.startswith(p.key + '::{closure')]
+        for cb in bodies:
+            for bi, bl in enumerate(cb.blocks):
+                if bl['cl'] or (cb is p and bi not in nodes):
+                    continue
+                for st in bl['s']:
+                    if st[0] == 'a' and st[2][0] == 'bin' and st[2][1] in ('Lt', 'Le', 'Gt', 'Ge'):
+                        return True
+                t = bl['t']
+                if t[0] == 'call' and re.search(r'PartialOrd(<[^>]*>)?>?::(lt|le|gt|ge)$|Ord>?::(min|max|cmp)$', cb.callee_name(t[1]) or ''):
+                    return True
+    return False
+
+
 @rule('R13.1', ['C13', 'C19'], floor=4, clause='per-socket poll_at reads every deadline field its dispatch compares with the clock, and takes the minimum over all pending items')
 def r13_1(ctx):
     """T6 sibling agreement dispatch <-> poll_at for the DNS and DHCPv4 sockets (time fields compared with
@@ -65,6 +92,8 @@ def r13_1(ctx):
     calls = {p.callee_name(c) or '' for _, c, *_ in p.calls()}
     if any(c.endswith('Iterator::min') or c.endswith('::min') for c in calls):
         ctx.ok(('dns', 'min-over-queries'), sample=dict(socket='dns', poll_at='Iterator::min over all pending queries'))
+    elif _min_loop(F, p):
+        ctx.ok(('dns', 'min-over-queries'), sample=dict(socket='dns', poll_at='loop over all queries keeping the earlier instant'))
     else:
         ctx.bad("dns::poll_at|not-min", "dns::Socket::poll_at does not take the minimum over all pending queries", body=p)
     # DHCPv4
